@@ -170,7 +170,9 @@ func ruleMapCursorCopies(c *Ctx, rule string) {
 		if fnPkgPath(o) != libsPath+"/api" || o.Name() != "MapCursor" || len(f.Blocks) == 0 {
 			continue
 		}
-		if fn == nil || f.String() < fn.String() {
+		// a ground instance is preferred (the helpers it calls are instantiated, hence built)
+		fInst, fnInst := strings.HasPrefix(f.Synthetic, "instance of"), fn != nil && strings.HasPrefix(fn.Synthetic, "instance of")
+		if fn == nil || (fInst && !fnInst) || (fInst == fnInst && f.String() < fn.String()) {
 			fn = f
 		}
 	}
@@ -180,7 +182,22 @@ func ruleMapCursorCopies(c *Ctx, rule string) {
 	}
 	c.seeFn(fn)
 	src := fn.Params[0]
-	for _, b := range fn.Blocks {
+	// the cursor may be built by a helper of the package that is handed the source cursor
+	body := fn
+	if !buildsCursor(fn) {
+		allCalls(fn, func(ci ssa.CallInstruction) {
+			g := staticCallee(ci)
+			if g == nil || len(g.Blocks) == 0 || fnPkgPath(origin(g)) != libsPath+"/api" || !buildsCursor(g) {
+				return
+			}
+			for i, a := range ci.Common().Args {
+				if a == ssa.Value(fn.Params[0]) && i < len(g.Params) {
+					body, src = g, g.Params[i]
+				}
+			}
+		})
+	}
+	for _, b := range body.Blocks {
 		for _, ins := range b.Instrs {
 			al, ok := ins.(*ssa.Alloc)
 			if !ok || !isCursorType(al.Type()) {
@@ -289,4 +306,15 @@ func ruleBoolReaders(c *Ctx, rule string, floor int) {
 	if n < floor {
 		c.undecided(rule, "floor:bool-readers", token.NoPos, fmt.Sprintf("expected at least %d reader(s) of boolean query parameters (api.QueryParamBool), found %d", floor, n))
 	}
+}
+
+func buildsCursor(fn *ssa.Function) bool {
+	for _, b := range fn.Blocks {
+		for _, ins := range b.Instrs {
+			if al, ok := ins.(*ssa.Alloc); ok && isCursorType(al.Type()) {
+				return true
+			}
+		}
+	}
+	return false
 }
